@@ -14,7 +14,84 @@ CHECKS = {
   text="Every scheduling choice of a controlled thread pool that mirrors the real pool's transition rules (worker receive, AddJob incl. inline-on-full-buffer, Wait check/select/block incl. nested pick-up of foreign jobs, Done) is enumerated by depth-first search up to a preemption bound (quick 2, nested bodies at T=3: 1; thorough 3/2) for 30 estimator bodies (scalar closed-form estimators with and without weights, wrappers, numeric, ScalarIid/ScalarId, vector normal, scalar and vector mixture EM, vector and matrix HMM Baum-Welch, logistic regression) x pool sizes 2..3 (thorough 4) x buffer sizes {1,100} x data sizes below/equal/above the pool size. Every execution runs the real code to completion and must equal the sequential (pool size 1) result up to 1e-9 relative, with no deadlock, lost, pending or doubly-run job. The same exploration runs in a -race build in which baton hand-offs are hidden from the detector and only the real pool's edges are annotated, so each enumerated job->thread assignment is judged for data races independent of timing. A conformance run on the real pool (-race) checks results against sequential and that every job->thread assignment the real pool produces on probe job structures is among those the model enumerates exhaustively (real within model).",
   note="Trusted: the controlled pool's fidelity to threadpool.go of the pinned version (argued in the overlay file header and bound by the probe conformance run), Go's race detector (may miss, does not invent), scheduling only at pool operations (sufficient under race freedom, which the race pass checks). Not covered: schedules beyond the preemption bound, pool sizes > 4, the real pool's window between wg.Done and recording a job error."),
 }
-NA = {i: "check not built yet in this round (planned: see DESIGN.md §3 %s); no claim is made" % i for i in ALL}
+
+def ex(pid, engine, cat, tech, text, note):
+    CHECKS[pid] = dict(engine=engine, category=cat, design_ref="DESIGN.md §3 %s and §8 %s (as built)" % (pid, pid), technique=tech, text=text, note=note)
+
+ex("C01", "regmc", "exploration",
+   "exhaustive enumeration of straight-line scalar register programs (depth<=2 quick, <=3 thorough) x boundary/composition point lattices, run on the real Real32/Real64 scalars vs an independent jet reference model",
+   "Every register program over the scalar operations and reductions up to the stated depth, with variables, constants, plain and reused magic registers in every operand slot, is executed on the real code at every point of per-operation boundary lattices (all piecewise branch boundaries +-1,2 ulp) and composition grids, for orders 1 and 2, 1..3 variables, Real64 and Real32; value, every first and second partial, Hessian symmetry (bitwise), exact zeros for independent variables and the gradient/Hessian helpers are compared with an independent jet model that validates itself against finite differences during the run. Exhaustive over that bounded program x point space, not over all expressions or all floats.",
+   "Trusted: the harness's jet model and from-scratch special functions (self-validated by Richardson finite differences), Go's math package, conditioning-aware tolerance 64 x first-order bound (ill-conditioned components are skipped). Not covered: depth>3, N>3, points between lattice points.")
+ex("C02", "regmc", "exploration",
+   "exhaustive product op x receiver type x operand type(s) x value lattice on the real scalar types vs independently computed named functions and Go conversion rules",
+   "All 34 scalar operations, the reductions, the comparisons and every conversion entry point are executed for every receiver type, every operand kind (16 scalar types + magic variables; all 324 operand-type pairs for binary operations) and every value of a lattice containing 0, +-0.0, small values, type extremes, +-Inf and NaN (restricted to what each type holds exactly); results must equal the named mathematical function computed independently in float64 and converted by Go's rules (integer receivers: Go integer arithmetic), agree across storage types, and converted scalars must have the requested type and value.",
+   "Trusted: Go's math package and the harness's own formulas for LogErfc/GammaP/BesselI/... (validated at start-up against closed forms). Only the value lattice is decided. Undefined cases (implementation-defined float->int conversion, integer x/0, NaN in order comparisons) are excluded and counted.")
+ex("C03", "histmc", "exploration",
+   "exhaustive single-step enumeration op x storage combination x zero pattern (incl. explicit stored zeros) x receiver prior content x element type on the real containers vs a plain dense jet model",
+   "Every vector and matrix operation, conversion and index/value constructor is executed for every dense/sparse combination of receiver and operands, every content over {0,1,-2} (+ absent / explicitly stored zero for sparse), every prior receiver content, dimensions 0..3 (4 for Float64 in thorough), all rectangular shapes in the bound and all nine element types (Real types also with entries activated as order-2 variables, comparing gradient and Hessian); every result element is read back and must equal an exact dense reference.",
+   "Exact regime (small integers/dyadics) so any evaluation order gives the same bits. Not covered: n>4, SparseConst operands, other value alphabets.")
+ex("C04", "smallscope", "exploration",
+   "exhaustive small-scope enumeration of integer matrices x right-hand sides x option combinations x element types on the real solvers vs an exact integer/rational reference; deterministic loop-tick budget",
+   "All n x n integer matrices in the stated lattices (n<=3 full, n=4 all pivot orders of unit-triangular sign patterns and all symmetric {-1,0,1} matrices in thorough) are run through determinant, matrixInverse, gaussJordan and backSubstitution with every option combination whose precondition the matrix exactly satisfies, every right-hand side and sub-matrix mask, caller-supplied buffers pre-filled with garbage, Float32/Float64/Real32/Real64; residuals of the defining equations must be below 1024 u kappa computed from the exact inverse, and structurally singular input must give an error, panic or non-finite output.",
+   "Trusted: exact Bareiss/adjugate reference cross-checked against an independent big.Rat inverse on every matrix. Well-conditioned small integer inputs only; singular but non-structural blocks are not judged.")
+ex("C05", "smallscope", "exploration",
+   "exhaustive small-scope enumeration of integer matrices (square, symmetric, exactly-SPD, tall) x option products on the real factorisation routines vs reference-free defining equations and exact integer spectra; tick budget",
+   "Every matrix of the stated lattices is run through every decomposition admissible for it (Cholesky/LDL/ForcePD, Gram-Schmidt, Hessenberg, bi-/tridiagonalisation, QR algorithm, eigensystem, SVD, msqrt, msqrtInv) with every option product and stale in-situ buffers, Float64 and Real64; the returned factors must multiply back to the input with the promised structure, eigenvalues must match the exact integer characteristic polynomial's real roots with multiplicity, eigenpairs must be aligned and ordered.",
+   "Tolerance 1e-9 max(1,|A|) on these well-conditioned lattices ((1e-9)^(1/k) for k-fold roots). Inputs exceeding the deterministic step budget are excluded here and reported by C20. n<=4.")
+ex("C06", "smallscope", "exploration",
+   "exhaustive enumeration of integer matrices x activation patterns x derivative orders on the real routines vs closed-form matrix calculus from an exact reference and differentiated defining equations; fast path vs generic path differential",
+   "On the C04 lattices (n<=3) every single entry, every row, the full matrix, the symmetric upper triangle (and none, with stale buffers) is activated with order 1 and 2 on Real64/Real32 matrices for products, inverse, solve, determinant, Cholesky/LDL, Gram-Schmidt and Hessenberg; values must equal the plain float run (= specialised vs generic path), every first and second derivative slot must equal the closed form from the exact inverse/cofactors or satisfy the differentiated factorisation identities; Jacobian/Hessian helpers are checked on 192 expressions x 27 points.",
+   "Trusted: exact rational reference and the harness's independent jet arithmetic. Not covered: derivatives through the QR algorithm, eigensystem and SVD; singular inputs.")
+ex("C08", "regmc+histmc", "exploration",
+   "exhaustive enumeration of all alias partitions of (receiver, operands, temporaries) x values x derivative states for scalars, and of receiver/operand aliasing incl. all slice/transpose windows for containers; differential oracle aliased call vs fully copied call",
+   "Every scalar operation (generic and concrete) is called under every set partition of its argument slots into objects, for every value of a grid with all branch points and every derivative state of the receiver; every container operation under every aliasing of receiver and operands, dense and sparse, all nine element types, all shapes in the bound and through every window/transpose of a small base matrix; the receiver must be bit-identical to the same call made with every operand deep-copied (or to an explicit alias rejection panic).",
+   "Temporaries are treated as scratch that must be distinct (undocumented otherwise; every in-repo caller passes a dedicated object): partitions sharing a temporary are executed and counted but not judged. Three alias families are listed as known findings.")
+ex("C09", "regmc+histmc", "exploration",
+   "reflection-discovered method pairs x exhaustive operand lattices; differential oracle generic method vs capital-letter method on identically built operands",
+   "All 726 (generic, concrete) method pairs found by reflection on scalar, vector and matrix types are executed on operands built twice from the same specification over exhaustive small lattices (values incl. +-Inf/NaN and derivative orders for scalars; every zero/stored-zero pattern, receiver prior content and shape tuple for containers) and must give identical panic status, return value, receiver and operand state and storage sharing.",
+   "Sign of zero and stored-zero-vs-absent inside sparse containers are normalised. New container types are not picked up automatically (static prototype table; const types are scanned and a new pair there is a harness error).")
+ex("C10", "histmc", "model_checking",
+   "explicit-state BFS to fixpoint over the finite space of Slice/T view states of small base matrices (real objects, canonical key = implementation header + model window), ~110 operations per state, differential oracle view vs independent deep copy + write-through check on the root",
+   "For every base (dense/sparse x element type x shape <=3x3 quick, <=4x4 thorough x content) the closure of all Slice bounds and transposes is explored to fixpoint; in every state every public read, write, accessor, iterator, arithmetic operation (as receiver and as operand), permutation, printing, export/JSON round trip and clone is executed on the view and on an independent deep copy and must agree, and writes through the view must change exactly the denoted cells of the root. Because the view space of a base is finite this covers all finite compositions of Slice and T for these bases.",
+   "Trusted: the [][]float64 model and denotation map; the overlay accessor that reads the private header (read-only, used only for state keys). The deep copy has the same storage class as the view (storage-dependent defects are C03/C11). Sparse T() write-through is left unspecified.")
+ex("C11", "histmc", "model_checking",
+   "explicit-state BFS to fixpoint over real sparse vectors/matrices (+ live iterators) with canonical keys from private state, successors by replay on fresh instances, dense reference model",
+   "From the empty container of every dimension the full public alphabet (element access that creates entries, writes of 0 and non-zero values, Set, Reset, Swap, Permute for all permutations, Sort, ReverseOrder, Slice with write-through, Append, value-preserving arithmetic, iterator walks, live iterators advanced between any two operations, Clone; matrices also row/column swaps, permutations, T, Tip, Slice, Row/Col/Diag) is applied from every reachable state until no new state appears (n<=3 quick, n<=4 thorough); after every transition every in-range read, a fresh iteration and every live iterator's continuation must agree with the dense model.",
+   "Trusted: dense model; overlay accessors to the values map / index tree / iterator fields (state keys and early-warning annotations only). After reordering operations a live iterator is only required to stay safe. Values {-1,0,1,2}; Real derivatives unused.")
+ex("C12", "histmc", "model_checking",
+   "explicit-state enumeration of object states (incl. all view states) x every copy constructor x every single mutation (thorough: every ordered pair) on either side; read-only operand snapshots around every operation and representative algorithm calls",
+   "For every enumerated scalar, vector and matrix state (all element types, all view states reachable by Slice/T, derivative content) every Clone/As*/magic/const copy constructor is applied; the copy must be observably equal and, after every mutation of a ~35-50 operation alphabet applied to either side, the other side (and the source's parent) must be unchanged; iterator clones must continue independently; every operation's non-receiver operands and 642 algorithm inputs are snapshotted before and compared after the call.",
+   "Exact comparison through public reads. The algorithm set is representative (optimizers, inverse, determinant, cholesky, QR, SVD, eigensystem); dense Slice-then-Append overwriting the parent's spare capacity is recorded as an outcome class, not judged.")
+ex("C13", "lattice", "exploration",
+   "exhaustive enumeration of finite floating-point sub-lattices (bounded mantissa bits x exponent range, integer/half-integer orders, every source threshold +-ulps, every float32 for univariate identities) vs committed 60-digit mpmath reference tables and reference-free identities",
+   "Every special function is evaluated at every point of the stated float sub-lattices, including each algorithm-selection threshold found in the source with its ulp neighbourhood, and compared with committed high-precision tables within 256 u max(1,cond); recurrences, complements and log-variant identities are checked on the lattices and (thorough) on every float32 argument. Decides the lattice points only - the quantifier 'all float64 arguments' is not reachable by enumeration.",
+   "Trusted: mpmath 1.3.0 tables (generator committed, checksums verified at start), math.Gamma/Lgamma/Erfc to a few ulp. Nothing is demanded where the function is ill-conditioned (256 u cond >= 1/2) or under/overflows.")
+ex("C14", "lattice", "exploration",
+   "exhaustive enumeration of parameter lattices (valid and invalid) x evaluation-point lattices x fixed quadrature node sets for 35 distribution families vs independent textbook densities",
+   "Every family and wrapper is constructed at every point of a valid parameter lattice (and must be refused at every point of an invalid one), evaluated at interior grids, at each support bound +-{0, 1 ulp, 1e-9, 1e-3}, far outside and at +-Inf, with Float64 and Real64 parameters; log-densities must match an independent textbook formula, be exactly -Inf outside the support, integrate/sum to one on a fixed Gauss-Legendre node set, CDFs must be monotone with the density as derivative (finite difference and AD), and clone / parameter / config round trips must be exact.",
+   "Parametrisation taken from constructor names, comments and repository tests. Mass errors below 1e-6 and points off the lattices are invisible; some heavy-tailed shapes are gated out of the normalisation clause.")
+ex("C15", "pathenum", "exploration",
+   "exhaustive enumeration of small HMMs/mixtures (all stochastic parameters over a dyadic alphabet incl. zeros, all state maps, start/final restrictions, emission tables, sequences, state-set sequences) vs brute-force summation over all hidden paths",
+   "For every model with up to 3 states and every observation sequence up to length 4 (5) the library's log-likelihood, forward/backward tables (generic and float64-specialised), posterior marginals, state-set posteriors, Viterbi path, one Baum-Welch step and mixture posteriors are compared with sums/maxima over the explicit list of all m^n hidden paths computed without library calls.",
+   "Tolerance 1e-10 (dyadic probabilities). Any Viterbi maximiser is accepted. Inadmissible models (no mass on final states / start restriction removes all mass) are skipped and counted.")
+ex("C16", "pathenum", "exploration",
+   "exhaustive enumeration of data sets x weights x bounds for closed-form estimators (exact MLE + perturbation oracle) and of data x initialisation for EM, checking every step of every trajectory",
+   "Closed-form estimators are run on all data sequences of size 1..4 (5) over small alphabets with all weight vectors over {0, log 1/2, log 1/4} and configured bounds; the estimate must be the exact weighted maximiser within the bounds and no admissible perturbation may raise the harness's own log-likelihood. EM for mixtures, HMMs and a nested configuration is run from a lattice of initialisations on all small data sets; at every iteration the likelihood must not decrease and the value passed to the hook must equal the independent log-likelihood of the model that iteration's E-step used.",
+   "Pool size 1 (parallel behaviour is C17). Monotonicity demanded only for exact (possibly box-constrained) M-steps. Numeric estimator: stationarity where two iteration budgets agree.")
+ex("C18", "codec", "exploration",
+   "exhaustive round-trip enumeration (value lattices, zero patterns, view shapes, nested distributions) and bounded-exhaustive malformed input (every truncation, single-byte deletion/substitution, single-node JSON mutation, all short strings) against all readers; per-shard child process for crash attribution",
+   "Every scalar, vector, matrix (all types, dims 0..3, every pattern, every Slice/T view of a 3x3 base) and 48 distribution instances are written as JSON / table / gzip table / config and read back: values bitwise (incl. -0.0, subnormals, integers above 2^53), derivatives, dims and non-zero positions must survive, and a view must encode like its deep copy. For malformed input derived exhaustively from valid encodings every reader must return an error or an object that survives a full read.",
+   "NaN/Inf excluded. Malformed inputs are single mutations of one valid encoding per reader plus all strings of <=3-4 symbols over a reduced alphabet.")
+ex("C20", "smallscope+envmc", "exploration",
+   "exhaustive enumeration of degenerate matrix families and poisoned objectives under a deterministic loop-tick/evaluation budget (termination), and of all shape tuples / index values / permutation arrays / option values against a reference model with sentinel-framed views (loud failure)",
+   "Termination: every matrix of the C05 lattices plus sizes 0/1, all nilpotent patterns, Jordan blocks, rank-one matrices and single NaN/Inf entries at every position is run through every iterative and direct routine, and every optimizer through objectives that turn NaN/Inf/error from call k on; exceeding 2e5 (n+1)^3 loop ticks or 1e5 objective evaluations is the (replayable, load-independent) verdict. Loud failure: 2.2e6 container calls over all shape tuples from dims {0..3}, indices {-1,0,d-1,d,d+1}, all permutation arrays, negative orders and 21 algorithm entry points with invalid options must panic or return an error when non-conforming, never return a wrong-shaped result, read outside a view or corrupt the receiver.",
+   "Termination is decided against a budget on lattice inputs, not proved. Tick instrumentation is generated from the current tree at check time (overlay). An invalid option is a violation only if it hangs or changes the result shape.")
+ex("C07", "envmc", "exploration",
+   "deviation-bounded exhaustive exploration of environment answers (objective / gradient / constraint / hook) for 12 optimizer entry points over parametrised objective families x start lattice x option lattices; 0, then 1, then 2 deviations at every callback index",
+   "BFGS, Newton root/critical point/minimum, Rprop (both forms), gradient descent, Adam (both forms), line search, SAGA (five objective interfaces) and Blahut-Arimoto are run on every objective of families with known optima (SPD quadratics with exact minimiser, Rosenbrock, separable cosh, quartics with known critical points, regularised logistic losses, root systems, finite sums, small channels) from every start of {-2,-1,0,1/2,1,2}^n with every option combination, first with exact answers, then with exactly one deviating answer (error, NaN value, NaN gradient, constraint says infeasible, hook says stop) at every callback index k<=12 the run reaches, then (small blocks) with two. On return without error, hook stop or cap the routine's own stopping condition is re-evaluated on the pure objective at the returned point; constraints, hook arguments and the caller's x0 are checked always.",
+   "Runs are bounded by deterministic loop-tick and evaluation budgets (capped runs are excluded by the property's premise and belong to C20). SAGA optimality bound for several components is empirical; Blahut has no epsilon of its own (Arimoto bound + caller-side gap stop).")
+
+NA = {i: "check still under construction in this round (planned: see DESIGN.md §3 %s); no claim is made yet" % i for i in ALL}
 m = {
  "version": 1,
  "setup_cmd": "./setup.sh",
@@ -27,8 +104,14 @@ m = {
  },
  "engines": [
   {"name": "vf", "path": "mc/vf", "serves_properties": sorted(CHECKS), "kind_free_text": "supervisor: sharded worker subprocesses, violation grouping by structural key, known-findings matching, replay artefacts, evidence writer, hang watchdog"},
+  {"name": "regmc", "path": "mc/cmd/c01, c02, c08, c09", "serves_properties": ["C01","C02","C08","C09"], "kind_free_text": "exhaustive register-program / operand-lattice enumerators with reference models and differential oracles"},
+  {"name": "smallscope", "path": "mc/cmd/c04, c05, c06, c20 + mc/cmd/instrument", "serves_properties": ["C04","C05","C06","C20"], "kind_free_text": "exhaustive small-matrix / option-product enumerators with exact integer references and AST-generated loop-tick budgets"},
+  {"name": "lattice", "path": "mc/cmd/c13, c14 + ref/c13", "serves_properties": ["C13","C14"], "kind_free_text": "float sub-lattice enumerators with committed high-precision tables, identities and fixed quadrature node sets"},
+  {"name": "envmc", "path": "mc/cmd/c07", "serves_properties": ["C07"], "kind_free_text": "deviation-bounded environment explorer (objective/gradient/constraint/hook answers) with tick and evaluation budgets"},
+  {"name": "pathenum", "path": "mc/cmd/c15, c16", "serves_properties": ["C15","C16"], "kind_free_text": "brute-force hidden-path enumeration and EM trajectory explorer"},
+  {"name": "codec", "path": "mc/cmd/c18", "serves_properties": ["C18"], "kind_free_text": "round-trip and bounded-exhaustive malformed-input enumerator with per-shard crash isolation"},
   {"name": "schedmc", "path": "mc/cmd/c17 + mc/overlay/_threadpool", "serves_properties": ["C17"], "kind_free_text": "controlled scheduler (coroutine thread pool replacing the dependency via go build -overlay) + stateless deviation-bounded DFS + race-detector pass + real-pool conformance"},
-  {"name": "histmc", "path": "mc/cmd/c19", "serves_properties": ["C19"], "kind_free_text": "explicit-state BFS over real objects with replay-built successors and canonical state hashing"},
+  {"name": "histmc", "path": "mc/cmd/c03, c10, c11, c12, c19", "serves_properties": ["C03","C10","C11","C12","C19"], "kind_free_text": "explicit-state BFS over real objects with replay-built successors and canonical state hashing"},
  ],
  "checks": [],
  "not_applicable": [],
